@@ -41,6 +41,16 @@ func isTChar(b byte) bool {
 	return slices.Contains([]byte{'!', '#', '$', '%', '&', '\'', '*', '+', '-', '.', '^', '_', '`', '|', '~'}, b)
 }
 
+// countLeftSP returns the number of leading SP characters of s. Inner lists
+// and parameters allow only SP, not HTAB, between their parts.
+func countLeftSP(s string) int {
+	i := 0
+	for i < len(s) && s[i] == ' ' {
+		i++
+	}
+	return i
+}
+
 func countLeftWhitespace(s string) int {
 	i := 0
 	for _, ch := range []byte(s) {
@@ -131,7 +141,7 @@ func consumeBareInnerList(s string, f func(bareItem, param string)) (consumed, r
 	closed := false
 	for len(rest) != 0 {
 		var bareItem, param string
-		rest = rest[countLeftWhitespace(rest):]
+		rest = rest[countLeftSP(rest):]
 		if len(rest) != 0 && rest[0] == ')' {
 			rest = rest[1:]
 			closed = true
@@ -277,7 +287,7 @@ func consumeParameter(s string, f func(key, val string)) (consumed, rest string,
 			break
 		}
 		rest = rest[1:]
-		rest = rest[countLeftWhitespace(rest):]
+		rest = rest[countLeftSP(rest):]
 		key, rest, ok = consumeKey(rest)
 		if !ok {
 			return "", s, ok
